@@ -6,6 +6,7 @@ import (
 	"time"
 
 	"codeberg.org/TauCeti/mangle-go/ast"
+	"codeberg.org/TauCeti/mangle-go/parse"
 	"codeberg.org/TauCeti/mangle-go/symbols"
 
 	"verifmc/rt"
@@ -33,6 +34,14 @@ func c12Types(thorough bool) []c12Type {
 		}
 		seen[t] = true
 		out = append(out, c12Type{e, h, t})
+		// the same type as it comes out of the parser (function symbols then carry the actual arity)
+		if _, isApply := e.(ast.ApplyFn); isApply && len(out)%3 == 0 {
+			if pe, err := parse.BaseTerm(t); err == nil {
+				if ph, err := symbols.NewSetHandle(pe); err == nil {
+					out = append(out, c12Type{pe, ph, t + " (parsed)"})
+				}
+			}
+		}
 	}
 	n := name2
 	base := []ast.BaseTerm{ast.AnyBound, ast.NumberBound, ast.StringBound, ast.NameBound, ast.Float64Bound, ast.BytesBound, ast.TimeBound, ast.DurationBound,
